@@ -18,6 +18,10 @@ let cat l = String.concat "," (List.map (fun p -> string_of_int (int_of_pos p)) 
 let () =
   let ic = open_in Sys.argv.(1) in
   let tbl = ref t_empty and nb = ref O and st = ref (Some init) and k = ref 0 in
+  (* control layer (thresholds, counters, trigger): a second state stepped in parallel; absent unless a CC line is given *)
+  let vt = ref v_empty and ni = ref XH and cc = ref None and cst = ref (Some cinit) and trig_pending = ref false in
+  let z_of_int n = if n = 0 then Z0 else if n > 0 then Zpos (pos_of_int n) else Zneg (pos_of_int (-n)) in
+  let int_of_z = function Z0 -> 0 | Zpos p -> int_of_pos p | Zneg p -> - int_of_pos p in
   let pending_as = ref None in
   (* run() call structure: RUN .. IT .. ENDRUN *)
   let in_run = ref false and rc = ref { rc_lim = None; rc_nshell = O; rc_discard = false } and s0 = ref None in
@@ -26,7 +30,14 @@ let () =
       | None -> first := ev :: !first
       | Some (t, n, evs) -> cur := Some (t, n, ev :: evs)) in
   let close_it () = (match !cur with Some (t, n, evs) -> its := { i_timeout = t; i_neff = n; i_events = List.rev evs } :: !its | None -> ()); cur := None in
-  let apply ev = incr k; record ev; match !st with
+  let capply ev = match !cc, !cst with
+    | Some c, Some cs ->
+        if !trig_pending then (trig_pending := false; if not (trig_ok_t c cs [ev]) then Printf.printf "TRIGBAD at event %d\n" !k);
+        (match cstep_t !tbl !vt !ni c !nb cs ev with
+         | Some cs' -> cst := Some cs'
+         | None -> cst := None; Printf.printf "CTLREJECT at event %d\n" !k)
+    | _, _ -> () in
+  let apply ev = incr k; record ev; capply ev; match !st with
     | None -> ()
     | Some s -> (match step_t !tbl !nb s ev with
         | Some s' -> st := Some s'
@@ -58,7 +69,10 @@ let () =
     | ["RUN"; lim; nsh; disc] ->
         in_run := true; s0 := !st; first := []; its := []; cur := None;
         rc := { rc_lim = (if lim = "-1" then None else Some (nat_of_int (int_of_string lim))); rc_nshell = nat_of_int (int_of_string nsh); rc_discard = (disc = "1") }
-    | ["IT"; t; n] -> close_it (); cur := Some (t = "1", n = "1", [])
+    | ["IT"; t; n] -> close_it (); cur := Some (t = "1", n = "1", []); trig_pending := true
+    | ["CC"; a; b; c; e] -> cc := Some { cc_nlive = nat_of_int (int_of_string a); cc_nupdate = z_of_int (int_of_string b); cc_nlikenew = nat_of_int (int_of_string c); cc_npmin = nat_of_int (int_of_string e) }
+    | ["VR"; v; r] -> vt := v_add (pos_of_int (int_of_string v)) (z_of_int (int_of_string r)) !vt
+    | ["NI"; v] -> ni := pos_of_int (int_of_string v)
     | ["ENDRUN"; ft; fn; ret] ->
         close_it (); in_run := false;
         (match !s0 with
@@ -77,7 +91,12 @@ let () =
              (cat sh.pts) (cat sh.lls) (cat sh.bls)) s.shells;
            Printf.printf "T pts=%s lls=%s bls=%s from=%s\n" (cat s.t_pts) (cat s.t_lls) (cat s.t_bls)
              (String.concat "," (List.map (function None -> "-1" | Some n -> string_of_int (int_of_nat n)) s.t_from));
-           Printf.printf "ST nlike=%d explored=%b discard=%b\n" (int_of_nat s.n_like) s.explored s.discard);
+           Printf.printf "ST nlike=%d explored=%b discard=%b\n" (int_of_nat s.n_like) s.explored s.discard;
+           (match !cc, !cst with
+            | Some _, Some cs -> Printf.printf "CT nui=%d nli=%d lmin=%s\n" (int_of_z cs.nui) (int_of_nat cs.nli)
+                                   (String.concat "," (List.map (fun v -> string_of_int (int_of_z (v_rank !vt v))) cs.lmins))
+            | Some _, None -> print_endline "CT none"
+            | None, _ -> ()));
         print_endline "END"
     | _ -> ()
   done with End_of_file -> ());
